@@ -104,12 +104,17 @@ def conformsStmts (c : Cmd) : List MStmt → Bool
   | s :: rest => conformsStmt c s && conformsStmts c rest
 end
 
-/-- field a marshal statement emits (for the declaration-order check) -/
-def emittedField : MStmt → Option String
-  | .int _ _ _ f | .quad _ _ _ f | .u8 _ f | .bytes _ f | .arr _ f | .sub _ f _ | .forSub _ f _
-  | .forInt _ _ _ f | .subHead f _ => some f
-  | .ifNonZero f _ | .ifNonZeroArr f _ => some f
+/-- block and field a marshal statement emits (for the declaration-order check) -/
+def emittedField : MStmt → Option (Blk × String)
+  | .int b _ _ f | .quad b _ _ f | .u8 b f | .bytes b f | .arr b f | .sub b f _ | .forSub b f _
+  | .forInt b _ _ f => some (b, f)
+  | .ifNonZero f _ | .ifNonZeroArr f _ => some (.P, f)
   | _ => none
+
+/-- fields in wire order: everything emitted into the parameter block, then the data block -/
+def wireOrder (c : Cmd) : List String :=
+  let es := c.marshal.filterMap emittedField
+  (es.filter (·.1 == .P)).map (·.2) ++ (es.filter (·.1 == .D)).map (·.2)
 
 def isSublistOf [BEq α] : List α → List α → Bool
   | [], _ => true
@@ -120,23 +125,34 @@ def isSublistOf [BEq α] : List α → List α → Bool
     fields emitted in declaration order, parameters before data -/
 def Conforms (c : Cmd) : Bool :=
   conformsStmts c c.marshal &&
-  isSublistOf (c.marshal.filterMap emittedField) (c.fields.map (·.1))
+  isSublistOf (wireOrder c) (c.fields.map (·.1))
 
 /-! ### Guarded (C07): every slice or index of the unmarshal program is dominated by a guard on the
     same block, with no offset change in between, that implies it -/
 
-/-- what the last guard established: `len(blk) ≥ offset + e`, still valid -/
+/-- what is known about `offset` at a program point:
+    `P`/`D = some e`: the last guard established `len(blk) ≥ offset + e` and nothing changed since;
+    `leP`/`leD`: `offset ≤ len(blk)`;
+    `sub = some b`: `bytesRead ≤ len(b) - offset` (a nested decoder just consumed from `b[offset:…]`
+    and reports no more than it was given — the codec honesty law proved in C06). -/
 structure Known where
   P : Option Expr := none
   D : Option Expr := none
+  leP : Bool := false
+  leD : Bool := false
+  sub : Option Blk := none
+  deriving Inhabited
 
 def Known.get (k : Known) : Blk → Option Expr
   | .P => k.P
   | .D => k.D
-def Known.set (k : Known) (b : Blk) (e : Option Expr) : Known :=
+def Known.le (k : Known) : Blk → Bool
+  | .P => k.leP || k.P.isSome
+  | .D => k.leD || k.D.isSome
+def Known.setGuard (k : Known) (b : Blk) (e : Expr) : Known :=
   match b with
-  | .P => { k with P := e }
-  | .D => { k with D := e }
+  | .P => { k with P := some e, sub := none }
+  | .D => { k with D := some e, sub := none }
 
 /-- `need ≤ have` decided syntactically: equal expressions, or literals in order -/
 def exprLe : Expr → Expr → Bool
@@ -159,48 +175,206 @@ def Expr.mentions (f : String) : Expr → Bool
 
 /-- assigning field `f` invalidates what is known in terms of `f` -/
 def Known.forget (k : Known) (f : String) : Known :=
-  { P := k.P.filter (fun e => !e.mentions f), D := k.D.filter (fun e => !e.mentions f) }
+  { k with
+    P := k.P.filter (fun e => !e.mentions f), D := k.D.filter (fun e => !e.mentions f),
+    leP := k.le .P, leD := k.le .D }
 
+/-- after `offset` moved by an unknown amount nothing is known -/
+def Known.none : Known := {}
+/-- `offset = 0` -/
+def Known.zero : Known := { leP := true, leD := true }
+
+mutual
 /-- returns the knowledge after the statement, or `none` if the statement may panic -/
 def guardedStmt (k : Known) : UStmt → Option Known
   | .retIfEmpty _ _ => some k
-  | .resetOffset => some {}
-  | .guard b e => some (k.set b (some e))
-  | .readInt b w _ f => if covered k b (.lit w) then some (k.forget f) else none
-  | .readQuad b w _ f => if covered k b (.lit w) then some (k.forget f) else none
-  | .readU8 b f => if covered k b (.lit 1) then some (k.forget f) else none
-  | .readBytes b f n => if covered k b n then some (k.forget f) else none
-  | .readRest b f => if (k.get b).isSome then some (k.forget f) else none   -- blk[offset:] needs offset ≤ len
-  | .readArr b f n => if covered k b (.lit n) then some (k.forget f) else none
-  | .readSub b f _ win whole _ _ =>
-    if whole then some (k.forget f) else
+  | .resetOffset => some Known.zero
+  | .guard b e => some (k.setGuard b e)
+  | .readInt b w _ f => if covered k b (.lit w) then some { (k.forget f) with sub := none } else none
+  | .readQuad b w _ f => if covered k b (.lit w) then some { (k.forget f) with sub := none } else none
+  | .readU8 b f => if covered k b (.lit 1) then some { (k.forget f) with sub := none } else none
+  | .readBytes b f n => if covered k b n then some { (k.forget f) with sub := none } else none
+  | .readRest b f => if k.le b then some { (k.forget f) with sub := none } else none
+  | .readArr b f n => if covered k b (.lit n) then some { (k.forget f) with sub := none } else none
+  | .readSub b f _ win whole _ stores =>
+    if whole then some { (k.forget f) with sub := none } else
     match win with
-    | some n => if covered k b (.lit n) then some (k.forget f) else none
-    | none => if (k.get b).isSome then some (k.forget f) else none
-  | .advance _ => some {}
-  | .advanceRead => some {}
-  | .setPad _ => some {}
-  | .padRoundUp => some {}     -- padLen changes: a guard mentioning `.pad` is no longer valid
-  | .padIfPOdd => some {}
-  | .resliceD => none
-  | .ifWordCount _ _ => none   -- decided per command by the dynamic theorem, not statically
+    | some n => if covered k b (.lit n) then some { (k.forget f) with sub := if stores then some b else none } else none
+    | none => if k.le b then some { (k.forget f) with sub := if stores then some b else none } else none
+  | .advance e => some { leP := covered k .P e, leD := covered k .D e }   -- moving by at most what a guard secured keeps `offset ≤ len`
+  | .advanceRead =>
+    match k.sub with
+    | some .P => some { leP := true }
+    | some .D => some { leD := true }
+    | none => some Known.none
+  | .setPad _ => some { leP := k.le .P, leD := k.le .D }
+  | .padRoundUp => some { leP := k.le .P, leD := k.le .D }
+  | .padIfPOdd => some { leP := k.le .P, leD := k.le .D }
+  | .resliceD => if k.le .D then some Known.none else none
+  | .ifWordCount _ body =>
+    match guardedStmts k body with
+    | some _ => some Known.none
+    | none => none
   | .clear f => some (k.forget f)
   | .makeInts f _ => some (k.forget f)
-  | .forCountInt _ _ _ _ _ => none
+  | .forCountInt b w _ _ g =>          -- reads `count` integers with no guard inside the loop
+    if covered k b (.mul w (.fint g)) then some Known.none else none
   | .forRangeInt _ _ _ _ => none
-  | .forCountSub _ _ _ _ _ => some {}   -- carries its own guard inside the loop
-  | .whileFitsSub _ _ _ _ => some {}    -- the loop condition is the guard
-  | .cstrUnicode _ => none
-  | .readArr3 _ _ => none
-
-def guardedFrom : Known → List UStmt → Bool
-  | _, [] => true
-  | k, s :: rest =>
+  | .forCountSub _ _ _ _ _ => some Known.none   -- carries its own guard inside the loop
+  | .whileFitsSub _ _ _ _ => some Known.none    -- the loop condition is the guard
+  | .cstrUnicode _ => none                      -- scans without a bound
+  | .readArr3 b _ => if covered k b (.lit 12) then some { k with sub := none } else none
+def guardedStmts (k : Known) : List UStmt → Option Known
+  | [] => some k
+  | s :: rest =>
     match guardedStmt k s with
-    | some k' => guardedFrom k' rest
-    | none => false
+    | some k' => guardedStmts k' rest
+    | none => none
+end
 
 /-- C07 static predicate on the extracted unmarshal program -/
-def Guarded (c : Cmd) : Bool := guardedFrom {} c.unmarshal
+def Guarded (c : Cmd) : Bool := (guardedStmts Known.zero c.unmarshal).isSome
+
+/-! ### Mirror and Consistent (C04): the straight-line fragment
+
+A *layout* is what both programs of a command should describe: per block, the sequence of slots.
+`layoutM` reads it off the marshal program, `layoutU` off the unmarshal program (each read must be
+followed by the advance over exactly what it read); `Mirror` says the two agree. -/
+
+inductive Slot
+  | int (b : Blk) (w : Nat) (e : End) (f : String)
+  | u8 (b : Blk) (f : String)
+  | bytes (b : Blk) (f : String) (len : Option Expr)     -- `none`: up to the end of the block
+  | arr (b : Blk) (f : String)
+  | sub (b : Blk) (f : String) (typ : String) (win : Option Nat)
+  deriving DecidableEq, Repr, Inhabited
+
+def layoutM : List MStmt → Option (List Slot)
+  | [] => some []
+  | .int b w e f :: r => (layoutM r).map (.int b w e f :: ·)
+  | .quad b w e f :: r => (layoutM r).map (.int b w e f :: ·)
+  | .u8 b f :: r => (layoutM r).map (.u8 b f :: ·)
+  | .bytes b f :: r => (layoutM r).map (.bytes b f none :: ·)
+  | .arr b f :: r => (layoutM r).map (.arr b f :: ·)
+  | .sub b f t :: r => (layoutM r).map (.sub b f t none :: ·)
+  | .setFmt _ _ :: r => layoutM r
+  | .assignLen _ _ _ :: r => layoutM r
+  | _ :: _ => none
+
+/-- guards do not contribute to the layout -/
+def layoutU : List UStmt → Option (List Slot)
+  | [] => some []
+  | .retIfEmpty _ _ :: r => layoutU r
+  | .resetOffset :: r => layoutU r
+  | .guard _ _ :: r => layoutU r
+  | .readInt b w e f :: .advance (.lit n) :: r => if n = w then (layoutU r).map (.int b w e f :: ·) else none
+  | .readQuad b w e f :: .advance (.lit n) :: r => if n = w then (layoutU r).map (.int b w e f :: ·) else none
+  | .readU8 b f :: .advance (.lit 1) :: r => (layoutU r).map (.u8 b f :: ·)
+  | .readBytes b f n :: .advance m :: r => if n = m then (layoutU r).map (.bytes b f (some n) :: ·) else none
+  | .readRest b f :: .advance (.flen g) :: r => if f = g then (layoutU r).map (.bytes b f none :: ·) else none
+  | .readArr b f n :: .advance (.lit m) :: r => if n = m then (layoutU r).map (.arr b f :: ·) else none
+  | .readSub b f t win false true true :: .advanceRead :: r => (layoutU r).map (.sub b f t win :: ·)
+  | _ :: _ => none
+
+def Slot.blk : Slot → Blk
+  | .int b .. | .u8 b .. | .bytes b .. | .arr b .. | .sub b .. => b
+
+/-- slot of the marshal side vs slot of the unmarshal side (the unmarshal side knows lengths/windows) -/
+def Slot.agrees : Slot → Slot → Bool
+  | .int b w e f, .int b' w' e' f' => b == b' && w == w' && e == e' && f == f'
+  | .u8 b f, .u8 b' f' => b == b' && f == f'
+  | .bytes b f _, .bytes b' f' _ => b == b' && f == f'
+  | .arr b f, .arr b' f' => b == b' && f == f'
+  | .sub b f t _, .sub b' f' t' _ => b == b' && f == f' && t == t'
+  | _, _ => false
+
+def agreeAll : List Slot → List Slot → Bool
+  | [], [] => true
+  | a :: as, b :: bs => a.agrees b && agreeAll as bs
+  | _, _ => false
+
+/-- a `bytes … none` slot (rest of block) may only be the last slot of its block -/
+def restOnlyLast : List Slot → Bool
+  | [] => true
+  | .bytes _ _ none :: r => r.isEmpty && restOnlyLast r
+  | _ :: r => restOnlyLast r
+
+/-- C04 static predicate: both programs are straight-line, describe the same slots per block in the
+    same order, and the unmarshal program accounts for the AndX words the marshal program emits -/
+def Mirror (c : Cmd) : Bool :=
+  match layoutM c.marshal, layoutU c.unmarshal with
+  | some m, some u =>
+    let mP := m.filter (·.blk == .P); let mD := m.filter (·.blk == .D)
+    let uP := u.filter (·.blk == .P); let uD := u.filter (·.blk == .D)
+    agreeAll mP uP && agreeAll mD uD && restOnlyLast uP && restOnlyLast uD &&
+    (!c.isAndX || mP.isEmpty)     -- no Unmarshal consumes the two AndX words
+  | _, _ => false
+
+/-- value of an integer expression over a field assignment (before any decoding) -/
+def evalEnv (env : Env) : Expr → Option Nat
+  | .lit n => some n
+  | .fint f => match env.get f with | some (.n x) => some x | _ => none
+  | .flen f => match env.get f with
+    | some (.b bs) => some bs.length
+    | some (.ns xs) => some xs.length
+    | some (.ts vs) => some vs.length
+    | _ => none
+  | .fsub f i => match env.get f with | some (.t v) => v.1[i]? | _ => none
+  | .pad => none
+  | .add a b => do pure ((← evalEnv env a) + (← evalEnv env b))
+  | .mul k e => do pure (k * (← evalEnv env e))
+
+/-- C04 "internally consistent": every integer fits its slot, every length field equals the length
+    of the buffer it describes, nested values encode, a nested value read through a fixed window
+    fills exactly that window, byte-array fields have their declared length, and the blocks fit the
+    one-byte word count / two-byte byte count (an even number of parameter bytes). -/
+def consistentSlots (C : Codecs) (env : Env) : List Slot → Bool
+  | [] => true
+  | .int _ w _ f :: r => (match env.get f with | some (.n x) => x < 256 ^ w | _ => false) && consistentSlots C env r
+  | .u8 _ f :: r => (match env.get f with | some (.n x) => x < 256 | _ => false) && consistentSlots C env r
+  | .bytes _ f len :: r =>
+    (match env.get f, len with
+      | some (.b bs), some e => evalEnv env e == some bs.length
+      | some (.b _), none => true
+      | _, _ => false) && consistentSlots C env r
+  | .arr _ f :: r => (match env.get f with | some (.b _) => true | _ => false) && consistentSlots C env r
+  | .sub _ f typ win :: r =>
+    (match env.get f with
+      | some (.t v) =>
+        (match C.enc typ v with
+          | .ok bs => (match win with | some n => bs.length == n | none => true) &&
+              (match C.dec typ bs with | .ok (_, k) => k == bs.length | _ => false)
+          | _ => false)
+      | _ => false) && consistentSlots C env r
+
+def consistent (C : Codecs) (c : Cmd) (env : Env) : Bool :=
+  match layoutU c.unmarshal, runM C c env with
+  | some u, .ok s =>
+    consistentSlots C s.env u && s.P.length % 2 == 0 && wordCountOf c.isAndX s.P ≤ 255 && s.D.length ≤ 65535 &&
+    (s.P.length > 0 || s.D.length > 0 || c.fields.isEmpty)
+  | _, _ => false
+
+/-- known C04 findings, decided on the extracted programs (not on the failing input):
+    `andx-not-consumed`: an AndX command whose Unmarshal reads parameter fields from offset 0 although
+    its Marshal put the two AndX words first; `field-not-marshalled`: a declared field no marshal
+    statement emits. -/
+def emittedDeep : List MStmt → List String
+  | [] => []
+  | .ifNonZero f body :: r => f :: emittedDeep body ++ emittedDeep r
+  | .ifNonZeroArr f body :: r => f :: emittedDeep body ++ emittedDeep r
+  | .ifWordCount _ body :: r => emittedDeep body ++ emittedDeep r
+  | .subHead f _ :: r => f :: emittedDeep r
+  | s :: r => (match emittedField s with | some (_, f) => [f] | none => []) ++ emittedDeep r
+
+def knownRt (c : Cmd) : String :=
+  let em := emittedDeep c.marshal
+  if c.isAndX && (c.marshal.filterMap emittedField).any (·.1 == .P) then "andx-not-consumed:" ++ c.name
+  else if (c.fields.map (·.1)).any (fun f => !em.contains f) then "field-not-marshalled:" ++ c.name
+  else ""
+
+/-- known C05 findings: a nested value whose Go encoder is big-endian (`SMB_FILE_ATTRIBUTES`, pinned
+    by the repository's own tests) inside this command -/
+def knownEnc (c : Cmd) (_env : Env) : String :=
+  if c.marshal.any (fun s => match s with | .sub _ _ "SMB_FILE_ATTRIBUTES" => true | _ => false) then "be:SMB_FILE_ATTRIBUTES" else ""
 
 end Manticore.SmbIR
